@@ -81,7 +81,10 @@ impl PqCfg {
                 D::Int32 | D::Int64 | D::Date32 | D::Timestamp(_, _) | D::UInt32 | D::UInt64 | D::Int8 | D::Int16 | D::UInt8 | D::UInt16 => [Some(E::DELTA_BINARY_PACKED), Some(E::PLAIN), Some(E::BYTE_STREAM_SPLIT), None][pick],
                 D::Float32 | D::Float64 => [Some(E::BYTE_STREAM_SPLIT), Some(E::PLAIN), None, Some(E::BYTE_STREAM_SPLIT)][pick],
                 D::Utf8 | D::LargeUtf8 | D::Binary | D::LargeBinary | D::Utf8View | D::BinaryView => [Some(E::DELTA_LENGTH_BYTE_ARRAY), Some(E::DELTA_BYTE_ARRAY), Some(E::PLAIN), None][pick],
-                D::FixedSizeBinary(_) | D::Decimal128(_, _) => [Some(E::BYTE_STREAM_SPLIT), Some(E::PLAIN), Some(E::DELTA_BYTE_ARRAY), None][pick],
+                // (a Decimal128 of small precision is stored as INT32 / INT64, for which DELTA_BYTE_ARRAY is not a legal encoding)
+                D::FixedSizeBinary(_) => [Some(E::BYTE_STREAM_SPLIT), Some(E::PLAIN), Some(E::DELTA_BYTE_ARRAY), None][pick],
+                D::Decimal128(p, _) if *p > 18 => [Some(E::BYTE_STREAM_SPLIT), Some(E::PLAIN), Some(E::DELTA_BYTE_ARRAY), None][pick],
+                D::Decimal128(_, _) => [Some(E::BYTE_STREAM_SPLIT), Some(E::PLAIN), Some(E::DELTA_BINARY_PACKED), None][pick],
                 D::Boolean => [Some(E::RLE), Some(E::PLAIN), None, Some(E::RLE)][pick],
                 _ => None,
             };
